@@ -467,14 +467,15 @@ Proof.
   exists u, g, c, node, t1. cbn [r_deletions r_process vfixed v_fix_move]. auto 10.
 Qed.
 
-Theorem move_reports t here src tgt uid t' rp uid' q o : cwf t ->
-  starts_with (tgt ++ [src]) (here ++ [src]) = false -> starts_with (here ++ [src]) (tgt ++ [src]) = false ->
+(* the two premises of move_reports follow from success (Consistent2_proofs.move_target_not_inside): the form
+   without them *)
+Theorem move_reports_gen t here src tgt uid t' rp uid' q o : cwf t ->
   apply_opv vfixed t here (OpMove D src tgt) uid = Ok (t', rp, uid') ->
   (In (q, o) (proc_paths t') <->
    (In (q, o) (proc_paths t) /\ starts_with q (here ++ [src]) = false) \/
    exists pi, In (q, pi) (r_process rp) /\ o = pi_obj pi).
 Proof.
-  intros Hw _ _ H. apply move_inv2 in H.
+  intros Hw H. apply move_inv2 in H.
   destruct H as (u & g & c & node & t1 & Hd & Hl & Hnone & Hdl & Hcs & _ & ->).
   pose proof (cdel_cwf _ _ _ Hw Hdl) as Hw1.
   pose proof (proc_nodes_cset_strong t1 (tgt ++ [src]) node t' q) as Hs'.
@@ -495,9 +496,30 @@ Proof.
       apply (Hs' pi Hw1 (snoc_not_nil tgt src) Hcs). right. exact Hin.
 Qed.
 
+Theorem move_reports t here src tgt uid t' rp uid' q o : cwf t ->
+  starts_with (tgt ++ [src]) (here ++ [src]) = false -> starts_with (here ++ [src]) (tgt ++ [src]) = false ->
+  apply_opv vfixed t here (OpMove D src tgt) uid = Ok (t', rp, uid') ->
+  (In (q, o) (proc_paths t') <->
+   (In (q, o) (proc_paths t) /\ starts_with q (here ++ [src]) = false) \/
+   exists pi, In (q, pi) (r_process rp) /\ o = pi_obj pi).
+Proof. intros Hw _ _ H. apply (move_reports_gen t here src tgt uid t' rp uid' q o Hw H). Qed.
+
 (* ---- the engine's table after folding a report in ---- *)
-Definition nonstep (pp : list key * pinfo) : bool := negb (pi_step (snd pp)).
-Definition entry (pp : list key * pinfo) : list key * N := (fst pp, pi_obj (snd pp)).
+(* nonstep, entry, psetf: Struct_proofs *)
+Lemma path_eq_dec (p q : list key) : {p = q} + {p <> q}.
+Proof. apply (list_eq_dec N.eq_dec). Qed.
+
+Lemma nodup_fst_functional {A B} (l : list (A * B)) p a b :
+  NoDup (map fst l) -> In (p, a) l -> In (p, b) l -> a = b.
+Proof.
+  induction l as [|[p0 a0] l IH]; cbn [map fst In]; intros Hnd Ha Hb; [destruct Ha|].
+  inversion Hnd as [|? ? Hx Hnd']; subst.
+  destruct Ha as [Ha|Ha]; destruct Hb as [Hb|Hb].
+  - inversion Ha; inversion Hb; subst. reflexivity.
+  - inversion Ha; subst. exfalso. apply Hx. change p with (fst (p, b)). apply in_map. exact Hb.
+  - inversion Hb; subst. exfalso. apply Hx. change p with (fst (p, a)). apply in_map. exact Ha.
+  - apply (IH Hnd' Ha Hb).
+Qed.
 
 Lemma pset_fresh {A} (l : list (list key * A)) p a : ~ In p (map fst l) -> pset l p a = l ++ [(p, a)].
 Proof.
@@ -505,6 +527,83 @@ Proof.
   destruct (kpath_eqb q p) eqn:E.
   - exfalso. apply Hn. left. apply kpath_eqb_eq. exact E.
   - rewrite IH; [reflexivity|]. intros Hin. apply Hn. right. exact Hin.
+Qed.
+
+Lemma pset_keys {A} (l : list (list key * A)) p a :
+  map fst (pset l p a) = if in_dec path_eq_dec p (map fst l) then map fst l else map fst l ++ [p].
+Proof.
+  induction l as [|[q b0] r IH]; cbn [pset map fst]; [reflexivity|].
+  destruct (kpath_eqb q p) eqn:E.
+  - apply kpath_eqb_eq in E. subst q. cbn [map fst].
+    destruct (in_dec path_eq_dec p (p :: map fst r)) as [_|Hn]; [reflexivity|].
+    exfalso. apply Hn. left. reflexivity.
+  - cbn [map fst]. rewrite IH.
+    destruct (in_dec path_eq_dec p (map fst r)) as [Hi|Hn];
+      destruct (in_dec path_eq_dec p (q :: map fst r)) as [Hi'|Hn']; try reflexivity.
+    + exfalso. apply Hn'. right. exact Hi.
+    + exfalso. destruct Hi' as [Hq|Hi']; [|exact (Hn Hi')]. subst q. rewrite kpath_eqb_refl in E.
+      discriminate E.
+Qed.
+
+Lemma pset_nodup {A} (l : list (list key * A)) p a : NoDup (map fst l) -> NoDup (map fst (pset l p a)).
+Proof.
+  intros Hnd. rewrite pset_keys. destruct (in_dec path_eq_dec p (map fst l)) as [Hi|Hn]; [exact Hnd|].
+  apply nodup_app; [exact Hnd|constructor; [intros []|constructor]|].
+  intros x Hx [<-|[]]. exact (Hn Hx).
+Qed.
+
+Lemma pset_in {A} (l : list (list key * A)) p a q o : NoDup (map fst l) ->
+  (In (q, o) (pset l p a) <-> (q = p /\ o = a) \/ (q <> p /\ In (q, o) l)).
+Proof.
+  induction l as [|[q0 b0] r IH]; cbn [pset map fst In]; intros Hnd.
+  - split.
+    + intros [H|[]]. inversion H; subst. left. auto.
+    + intros [[-> ->]|[_ []]]. left. reflexivity.
+  - inversion Hnd as [|? ? Hx Hnd']; subst. destruct (kpath_eqb q0 p) eqn:E.
+    + apply kpath_eqb_eq in E. subst q0. cbn [In]. split.
+      * intros [H|H]; [inversion H; subst; left; auto|].
+        right. split; [|right; exact H]. intros ->. apply Hx. change p with (fst (p, o)).
+        apply in_map. exact H.
+      * intros [[-> ->]|[Hne [H|H]]]; [left; reflexivity| |right; exact H].
+        inversion H; subst. congruence.
+    + cbn [In]. rewrite (IH Hnd'). split.
+      * intros [H|[H|[Hne H]]]; [|left; exact H|right; split; [exact Hne|right; exact H]].
+        inversion H; subst. right. split; [|left; reflexivity].
+        intros ->. rewrite kpath_eqb_refl in E. discriminate E.
+      * intros [H|[Hne [H|H]]]; [right; left; exact H|left; exact H|right; right; auto].
+Qed.
+
+(* registering a list of reports: the assignment keeps one entry per path, the last entry for a path wins *)
+Lemma psetf_fold_nodup adds : forall l, NoDup (map fst l) -> NoDup (map fst (fold_left psetf adds l)).
+Proof.
+  induction adds as [|x adds IH]; intros l Hnd; cbn [fold_left]; [exact Hnd|].
+  apply IH. unfold psetf. apply pset_nodup. exact Hnd.
+Qed.
+
+Lemma psetf_fold_in adds : forall l q o, NoDup (map fst l) ->
+  (forall p pi pi', In (p, pi) adds -> In (p, pi') adds -> pi_obj pi = pi_obj pi') ->
+  (In (q, o) (fold_left psetf adds l) <->
+   (In (q, o) l /\ ~ In q (map fst adds)) \/ exists pi, In (q, pi) adds /\ o = pi_obj pi).
+Proof.
+  induction adds as [|[p pi] adds IH]; intros l q o Hnd Hfun; cbn [fold_left].
+  - cbn [map In]. split; [intros H; left; split; [exact H|intros []]|].
+    intros [[H _]|(pi & [] & _)]. exact H.
+  - assert (Hfun' : forall p0 pi0 pi', In (p0, pi0) adds -> In (p0, pi') adds -> pi_obj pi0 = pi_obj pi').
+    { intros p0 pi0 pi' H1 H2. apply (Hfun p0 pi0 pi'); right; assumption. }
+    rewrite (IH (psetf l (p, pi)) q o (pset_nodup l p (pi_obj pi) Hnd) Hfun').
+    unfold psetf at 1. cbn [fst snd]. rewrite (pset_in l p (pi_obj pi) q o Hnd). cbn [map fst In]. split.
+    + intros [[[[-> ->]|[Hne Hin]] Hnk]|(pi0 & Hin & ->)].
+      * right. exists pi. split; [left; reflexivity|reflexivity].
+      * left. split; [exact Hin|]. intros [Hq|Hq]; [congruence|exact (Hnk Hq)].
+      * right. exists pi0. split; [right; exact Hin|reflexivity].
+    + intros [[Hin Hnk]|(pi0 & [Heq|Hin] & ->)].
+      * left. split; [|intros Hq; apply Hnk; right; exact Hq].
+        right. split; [|exact Hin]. intros ->. apply Hnk. left. reflexivity.
+      * inversion Heq; subst p pi0. destruct (in_dec path_eq_dec q (map fst adds)) as [Hi|Hn].
+        -- right. apply in_map_iff in Hi. destruct Hi as ([q' pi1] & Hq' & Hi). cbn [fst] in Hq'. subst q'.
+           exists pi1. split; [exact Hi|]. apply (Hfun q pi pi1); [left; reflexivity|right; exact Hi].
+        -- left. split; [left; auto|exact Hn].
+      * right. exists pi0. split; [exact Hin|reflexivity].
 Qed.
 
 Lemma nodup_map_filter {A B} (f : A -> B) (g : A -> bool) l : NoDup (map f l) -> NoDup (map f (filter g l)).
@@ -526,90 +625,63 @@ Qed.
 Lemma map_fst_entry l : map fst (map entry l) = map fst l.
 Proof. rewrite map_map. apply map_ext. intros [p pi]. reflexivity. Qed.
 
-(* folding the process updates of a report: fresh non-step paths are appended in order *)
-Lemma pfold_append (G : res book -> list key * pinfo -> res book) :
-  (forall x e, G (Err e) x = Err e) ->
-  (forall bk x bk1, G (Ok bk) x = Ok bk1 ->
-     b_procs bk1 = if pi_step (snd x) then b_procs bk else pset (b_procs bk) (fst x) (pi_obj (snd x))) ->
-  forall l bk b2, fold_left G l (Ok bk) = Ok b2 ->
-    (forall p pi, In (p, pi) l -> pi_step pi = false -> ~ In p (map fst (b_procs bk))) ->
-    NoDup (map fst (filter nonstep l)) ->
-    b_procs b2 = b_procs bk ++ map entry (filter nonstep l).
+(* fresh and pairwise distinct paths are appended in order *)
+Lemma psetf_fold_append adds : forall l,
+  (forall p, In p (map fst adds) -> ~ In p (map fst l)) -> NoDup (map fst adds) ->
+  fold_left psetf adds l = l ++ map entry adds.
 Proof.
-  intros Herr HG. induction l as [|[p pi] l IH]; intros bk b2 H Hfresh Hnd.
-  - cbn in H. inversion H; subst. cbn. rewrite app_nil_r. reflexivity.
-  - cbn [fold_left] in H. destruct (G (Ok bk) (p, pi)) as [bk1|e] eqn:E;
-      [|rewrite (fold_err G Herr) in H; discriminate H].
-    pose proof (HG bk (p, pi) bk1 E) as Hb. cbn [fst snd] in Hb.
-    cbn [filter] in Hnd |- *. unfold nonstep at 1 in Hnd. unfold nonstep at 1. cbn [snd] in Hnd |- *.
-    destruct (pi_step pi) eqn:Es; cbn [negb] in Hnd |- *.
-    + rewrite (IH bk1 b2 H); [rewrite Hb; reflexivity| |exact Hnd].
-      intros p' pi' Hin Hs'. rewrite Hb. apply (Hfresh p' pi'); [right; exact Hin|exact Hs'].
-    + cbn [map fst] in Hnd. inversion Hnd as [|? ? Hp Hnd']; subst.
-      rewrite pset_fresh in Hb by (apply (Hfresh p pi); [left; reflexivity|exact Es]).
-      rewrite (IH bk1 b2 H); [rewrite Hb, <- app_assoc; reflexivity| |exact Hnd'].
-      intros p' pi' Hin Hs' Hin'. rewrite Hb, map_app in Hin'. apply in_app_or in Hin'.
-      destruct Hin' as [Hin'|[Heq|[]]].
-      * apply (Hfresh p' pi'); [right; exact Hin|exact Hs'|exact Hin'].
-      * cbn [fst] in Heq. subst p'. apply Hp. apply in_map_iff. exists (p, pi'). split; [reflexivity|].
-        apply filter_In. split; [exact Hin|]. unfold nonstep. cbn [snd]. rewrite Hs'. reflexivity.
+  induction adds as [|[p pi] adds IH]; intros l Hfresh Hnd; cbn [fold_left map]; [rewrite app_nil_r; reflexivity|].
+  cbn [map fst] in Hnd. inversion Hnd as [|? ? Hp Hnd']; subst.
+  unfold psetf at 2. cbn [fst snd]. rewrite pset_fresh by (apply Hfresh; left; reflexivity).
+  rewrite IH; [rewrite <- app_assoc; reflexivity| |exact Hnd'].
+  intros p' Hin Hin'. rewrite map_app in Hin'. apply in_app_or in Hin'. destruct Hin' as [Hin'|[Heq|[]]].
+  - apply (Hfresh p'); [right; exact Hin|exact Hin'].
+  - cbn [fst] in Heq. subst p'. exact (Hp Hin).
 Qed.
 
-(* the table after a report, explicitly *)
-Lemma book_apply_procs_eq b rp b' :
-  NoDup (map fst (filter nonstep (r_process rp))) ->
-  (forall p pi, In (p, pi) (r_process rp) -> pi_step pi = false -> ~ In p (map fst (b_procs b))) ->
-  book_apply b rp = Ok b' ->
-  b_procs b' = fold_left pdrop (r_deletions rp) (b_procs b ++ map entry (filter nonstep (r_process rp))).
-Proof.
-  unfold book_apply. intros Hnd Hfresh H.
-  dres H b2 E2. dres H b3 E3. inversion H as [Hb']; clear H.
-  assert (H2 : b_procs b2 = b_procs b ++ map entry (filter nonstep (r_process rp))).
-  { refine (pfold_append _ _ _ _ _ _ E2 Hfresh Hnd).
-    - reflexivity.
-    - intros bk x bk1 Hg. cbn [rbind] in Hg. destruct (pi_step (snd x)).
-      + apply add_step_procs in Hg. rewrite Hg. reflexivity.
-      + inversion Hg; subst. reflexivity. }
-  assert (H3 : b_procs b3 = b_procs b2).
-  { refine (rfold_inv _ (fun bk => b_procs bk = b_procs b2) _ _ _ E3 _ _ eq_refl).
-    - reflexivity.
-    - intros a0 x a1 Hg Ha. cbn [rbind] in Hg. apply add_step_procs in Hg. rewrite Hg. exact Ha. }
-  rewrite dfold_procs by reflexivity. rewrite H3, H2. reflexivity.
-Qed.
+(* reports of pairwise distinct paths agree on the object of a path *)
+Lemma nodup_reports_functional (l : list (list key * pinfo)) :
+  NoDup (map fst l) -> forall p pi pi', In (p, pi) l -> In (p, pi') l -> pi_obj pi = pi_obj pi'.
+Proof. intros Hnd p pi pi' H1 H2. rewrite (nodup_fst_functional l p pi pi' Hnd H1 H2). reflexivity. Qed.
 
+(* DELETIONS FIRST, THEN REGISTRATION: the table after a report.  Registered are the entries that were there,
+   lie under no reported deletion and are not re-assigned, and every reported non-step process (reports of one
+   path must agree on the object: then their order does not matter) -- also one reported under a deleted path *)
 Theorem book_apply_procs b rp b' q o : NoDup (map fst (b_procs b)) ->
-  (forall p pi, In (p, pi) (r_process rp) -> pi_step pi = false -> forall d, In d (r_deletions rp) -> starts_with p d = false) ->
-  NoDup (map fst (filter (fun pp => negb (pi_step (snd pp))) (r_process rp))) ->
-  (forall p pi, In (p, pi) (r_process rp) -> pi_step pi = false -> ~ In p (map fst (b_procs b))) ->
+  (forall p pi pi', In (p, pi) (filter nonstep (r_process rp)) -> In (p, pi') (filter nonstep (r_process rp)) ->
+                    pi_obj pi = pi_obj pi') ->
   book_apply b rp = Ok b' ->
   (In (q, o) (b_procs b') <->
-   (In (q, o) (b_procs b) /\ forall d, In d (r_deletions rp) -> starts_with q d = false) \/
+   (In (q, o) (b_procs b) /\ (forall d, In d (r_deletions rp) -> starts_with q d = false) /\
+    ~ In q (map fst (filter nonstep (r_process rp)))) \/
    exists pi, In (q, pi) (r_process rp) /\ pi_step pi = false /\ o = pi_obj pi).
 Proof.
-  intros _ Hdel Hnd Hfresh H. rewrite (book_apply_procs_eq b rp b' Hnd Hfresh H).
-  rewrite pdrop_fold_in, in_app_iff, in_map_iff. split.
-  - intros [[Hin|([p pi] & Heq & Hin)] Hd].
-    + left. auto.
-    + right. unfold entry in Heq. cbn [fst snd] in Heq. inversion Heq; subst p o.
-      apply filter_In in Hin. destruct Hin as [Hin Hs]. unfold nonstep in Hs. cbn [snd] in Hs.
-      apply negb_true_iff in Hs. exists pi. auto.
-  - intros [[Hin Hd]|(pi & Hin & Hs & ->)].
-    + split; [left; exact Hin|exact Hd].
-    + split; [|apply (Hdel q pi Hin Hs)]. right. exists (q, pi). split; [reflexivity|].
-      apply filter_In. split; [exact Hin|]. unfold nonstep. cbn [snd]. rewrite Hs. reflexivity.
+  intros Hnd Hfun H. rewrite (book_apply_procs_eq b rp b' H).
+  rewrite (psetf_fold_in _ _ q o (nodup_pdrop_fold _ _ Hnd) Hfun), pdrop_fold_in. split.
+  - intros [[[Hin Hd] Hnk]|(pi & Hin & Ho)]; [left; auto|].
+    apply in_filter_nonstep in Hin. destruct Hin as [Hin Hs]. right. exists pi. auto.
+  - intros [(Hin & Hd & Hnk)|(pi & Hin & Hs & Ho)]; [left; auto|].
+    right. exists pi. split; [apply in_filter_nonstep; auto|exact Ho].
 Qed.
 
-(* the table keeps one entry per path *)
+(* the table keeps one entry per path: no premise on the report *)
 Theorem book_apply_nodup b rp b' : NoDup (map fst (b_procs b)) ->
-  NoDup (map fst (filter (fun pp => negb (pi_step (snd pp))) (r_process rp))) ->
-  (forall p pi, In (p, pi) (r_process rp) -> pi_step pi = false -> ~ In p (map fst (b_procs b))) ->
   book_apply b rp = Ok b' -> NoDup (map fst (b_procs b')).
 Proof.
-  intros Hb Hnd Hfresh H. rewrite (book_apply_procs_eq b rp b' Hnd Hfresh H).
-  apply nodup_pdrop_fold. rewrite map_app, map_fst_entry. apply nodup_app; [exact Hb|exact Hnd|].
-  intros p Hin Hin'. apply in_map_iff in Hin'. destruct Hin' as ([p' pi] & Heq & Hin').
-  cbn [fst] in Heq. subst p'. apply filter_In in Hin'. destruct Hin' as [Hin' Hs]. cbn [snd] in Hs.
-  apply negb_true_iff in Hs. apply (Hfresh p pi Hin' Hs Hin).
+  intros Hb H. rewrite (book_apply_procs_eq b rp b' H). apply psetf_fold_nodup, nodup_pdrop_fold. exact Hb.
+Qed.
+
+(* reported paths that are pairwise distinct and not in the table (after the deletions) are appended in order *)
+Theorem book_apply_procs_append b rp b' :
+  NoDup (map fst (filter nonstep (r_process rp))) ->
+  (forall p pi, In (p, pi) (r_process rp) -> pi_step pi = false ->
+     ~ In p (map fst (fold_left pdrop (r_deletions rp) (b_procs b)))) ->
+  book_apply b rp = Ok b' ->
+  b_procs b' = fold_left pdrop (r_deletions rp) (b_procs b) ++ map entry (filter nonstep (r_process rp)).
+Proof.
+  intros Hnd Hfresh H. rewrite (book_apply_procs_eq b rp b' H). apply psetf_fold_append; [|exact Hnd].
+  intros p Hin. apply in_map_iff in Hin. destruct Hin as ([p' pi] & Heq & Hin). cbn [fst] in Heq. subst p'.
+  apply in_filter_nonstep in Hin. destruct Hin as [Hin Hs]. apply (Hfresh p pi Hin Hs).
 Qed.
 
 (* ---- together: consistency of the process table is preserved ---- *)
@@ -627,20 +699,17 @@ Theorem consistent_delete vr t here k uid t' rp uid' b b' : cwf t -> consistent_
   book_apply b rp = Ok b' -> consistent_procs t' b'.
 Proof.
   intros Hw [Hss Hnd] Hop Hb. destruct (delete_inv2 _ _ _ _ _ _ _ _ Hop) as [Hdel Hrp].
-  assert (H2 : forall p pi, In (p, pi) (r_process rp) -> pi_step pi = false ->
-                            forall d, In d (r_deletions rp) -> starts_with p d = false)
-    by (rewrite Hrp; intros p pi []).
-  assert (H3 : NoDup (map fst (filter (fun pp => negb (pi_step (snd pp))) (r_process rp))))
-    by (rewrite Hrp; constructor).
-  assert (H4 : forall p pi, In (p, pi) (r_process rp) -> pi_step pi = false -> ~ In p (map fst (b_procs b)))
-    by (rewrite Hrp; intros p pi []).
-  split; [|apply (book_apply_nodup b rp b' Hnd H3 H4 Hb)].
-  intros [q o]. rewrite (book_apply_procs b rp b' q o Hnd H2 H3 H4 Hb).
+  assert (Hfun : forall p pi pi', In (p, pi) (filter nonstep (r_process rp)) ->
+                   In (p, pi') (filter nonstep (r_process rp)) -> pi_obj pi = pi_obj pi')
+    by (rewrite Hrp; intros p pi pi' []).
+  split; [|apply (book_apply_nodup b rp b' Hnd Hb)].
+  intros [q o]. rewrite (book_apply_procs b rp b' q o Hnd Hfun Hb).
   rewrite (delete_reports vr t here k uid t' rp uid' q o Hw Hop). split.
-  - intros [[Hin Hd]|(pi & Hin & _)]; [|rewrite Hrp in Hin; destruct Hin].
+  - intros [(Hin & Hd & _)|(pi & Hin & _)]; [|rewrite Hrp in Hin; destruct Hin].
     split; [apply Hss; exact Hin|]. apply Hd. rewrite Hdel. left. reflexivity.
-  - intros [Hin Hsw]. left. split; [apply Hss; exact Hin|].
-    intros d Hd. rewrite Hdel in Hd. destruct Hd as [<-|[]]. exact Hsw.
+  - intros [Hin Hsw]. left. split; [apply Hss; exact Hin|]. split.
+    + intros d Hd. rewrite Hdel in Hd. destruct Hd as [<-|[]]. exact Hsw.
+    + rewrite Hrp. intros [].
 Qed.
 
 (* a reported path lies under the root it was reported for *)
@@ -672,32 +741,30 @@ Proof.
   assert (Hin_r : forall p pi, In (p, pi) (r_process rp) -> In (p, pi) (proc_nodes (fst r) (here ++ [k]))).
   { intros p pi Hin. rewrite Hrp in Hin. cbn [reports_generated r_process] in Hin.
     apply filter_In in Hin. destruct Hin as [Hin _]. exact Hin. }
-  assert (H2 : forall p pi, In (p, pi) (r_process rp) -> pi_step pi = false ->
-                            forall d0, In d0 (r_deletions rp) -> starts_with p d0 = false)
-    by (rewrite Hdel; intros p pi _ _ d0 []).
-  assert (H3 : NoDup (map fst (filter (fun pp => negb (pi_step (snd pp))) (r_process rp)))).
+  assert (H3 : NoDup (map fst (filter nonstep (r_process rp)))).
   { rewrite Hrp. cbn [reports_generated r_process]. apply nodup_map_filter, nodup_map_filter.
     rewrite (set_value_procs _ _ _ _ _ Es). apply proc_nodes_nodup. apply Hbw. }
-  assert (H4 : forall p pi, In (p, pi) (r_process rp) -> pi_step pi = false -> ~ In p (map fst (b_procs b))).
-  { intros p pi Hin _ Hin'. apply Hin_r in Hin. apply reported_under in Hin.
+  assert (H4 : forall p, In p (map fst (filter nonstep (r_process rp))) -> ~ In p (map fst (b_procs b))).
+  { intros p Hin Hin'. apply in_map_iff in Hin. destruct Hin as ([p' pi] & Heq & Hin). cbn [fst] in Heq. subst p'.
+    apply in_filter_nonstep in Hin. destruct Hin as [Hin _]. apply Hin_r in Hin. apply reported_under in Hin.
     rewrite (table_not_under t b _ p Hw Hc Hnone Hin') in Hin. discriminate Hin. }
   destruct Hc as [Hss Hnd].
-  split; [|apply (book_apply_nodup b rp b' Hnd H3 H4 Hb)].
-  intros [q o]. rewrite (book_apply_procs b rp b' q o Hnd H2 H3 H4 Hb).
+  split; [|apply (book_apply_nodup b rp b' Hnd Hb)].
+  intros [q o]. rewrite (book_apply_procs b rp b' q o Hnd (nodup_reports_functional _ H3) Hb).
   rewrite (generate_reports_partial vr t here k d init uid t' rp uid' q o u g c Hw Hd Hl Hbw Hst Hop). split.
-  - intros [[Hin _]|Hex]; [left; apply Hss; exact Hin|right; exact Hex].
-  - intros [Hin|Hex]; [left|right; exact Hex]. split; [apply Hss; exact Hin|].
-    rewrite Hdel. intros d0 [].
+  - intros [(Hin & _)|Hex]; [left; apply Hss; exact Hin|right; exact Hex].
+  - intros [Hin|Hex]; [left|right; exact Hex]. apply Hss in Hin. split; [exact Hin|].
+    split; [rewrite Hdel; intros d0 []|].
+    intros Hk. apply (H4 q Hk). change q with (fst (q, o)). apply in_map. exact Hin.
 Qed.
 
-(* move (repaired Store.move).  The moved key does not exist under the target: otherwise the
-   operation is not generated (apply_op returns Err), so success implies it. *)
+(* move (repaired Store.move).  No premise besides success: the moved key does not exist under the target and the
+   target is not inside the moved subtree (otherwise apply_op returns Err) *)
 Theorem consistent_move t here src tgt uid t' rp uid' b b' : cwf t -> consistent_procs t b ->
-  starts_with (tgt ++ [src]) (here ++ [src]) = false -> starts_with (here ++ [src]) (tgt ++ [src]) = false ->
   apply_opv vfixed t here (OpMove D src tgt) uid = Ok (t', rp, uid') ->
   book_apply b rp = Ok b' -> consistent_procs t' b'.
 Proof.
-  intros Hw Hc Hs1 Hs2 Hop Hb.
+  intros Hw Hc Hop Hb.
   destruct (move_inv2 _ _ _ _ _ _ _ _ Hop)
     as (u & g & c & node & t1 & Hd & Hl & Hnone & Hdl & Hcs & Hdel & Hrp).
   assert (Hwn : cwf node) by apply (cwf_child u g c src node (cwf_cget t here _ Hw Hd) Hl).
@@ -705,27 +772,24 @@ Proof.
                                In (p, pi) (proc_nodes node (tgt ++ [src])) /\ pi_step pi = false).
   { intros p pi Hin. rewrite Hrp in Hin. apply filter_In in Hin. destruct Hin as [Hin Hs].
     cbn [snd] in Hs. apply negb_true_iff in Hs. auto. }
-  assert (H2 : forall p pi, In (p, pi) (r_process rp) -> pi_step pi = false ->
-                            forall d0, In d0 (r_deletions rp) -> starts_with p d0 = false).
-  { intros p pi Hin _ d0 Hd0. rewrite Hdel in Hd0. destruct Hd0 as [<-|[]].
-    apply Hin_r in Hin. destruct Hin as [Hin _]. apply proc_nodes_prefix in Hin. destruct Hin as (r' & ->).
-    destruct (starts_with ((tgt ++ [src]) ++ r') (here ++ [src])) eqn:E; [|reflexivity].
-    apply sw_ext in E. destruct E as [E|E]; congruence. }
-  assert (H3 : NoDup (map fst (filter (fun pp => negb (pi_step (snd pp))) (r_process rp)))).
+  assert (H3 : NoDup (map fst (filter nonstep (r_process rp)))).
   { rewrite Hrp. apply nodup_map_filter, nodup_map_filter. apply proc_nodes_nodup. exact Hwn. }
-  assert (H4 : forall p pi, In (p, pi) (r_process rp) -> pi_step pi = false -> ~ In p (map fst (b_procs b))).
-  { intros p pi Hin _ Hin'. apply Hin_r in Hin. destruct Hin as [Hin _]. apply reported_under in Hin.
+  assert (H4 : forall p, In p (map fst (filter nonstep (r_process rp))) -> ~ In p (map fst (b_procs b))).
+  { intros p Hin Hin'. apply in_map_iff in Hin. destruct Hin as ([p' pi] & Heq & Hin). cbn [fst] in Heq. subst p'.
+    apply in_filter_nonstep in Hin. destruct Hin as [Hin _]. apply Hin_r in Hin. destruct Hin as [Hin _].
+    apply reported_under in Hin.
     rewrite (table_not_under t b _ p Hw Hc Hnone Hin') in Hin. discriminate Hin. }
   destruct Hc as [Hss Hnd].
-  split; [|apply (book_apply_nodup b rp b' Hnd H3 H4 Hb)].
-  intros [q o]. rewrite (book_apply_procs b rp b' q o Hnd H2 H3 H4 Hb).
-  rewrite (move_reports t here src tgt uid t' rp uid' q o Hw Hs1 Hs2 Hop). split.
-  - intros [[Hin Hd0]|(pi & Hin & _ & Ho)].
+  split; [|apply (book_apply_nodup b rp b' Hnd Hb)].
+  intros [q o]. rewrite (book_apply_procs b rp b' q o Hnd (nodup_reports_functional _ H3) Hb).
+  rewrite (move_reports_gen t here src tgt uid t' rp uid' q o Hw Hop). split.
+  - intros [(Hin & Hd0 & _)|(pi & Hin & _ & Ho)].
     + left. split; [apply Hss; exact Hin|]. apply Hd0. rewrite Hdel. left. reflexivity.
     + right. exists pi. auto.
   - intros [[Hin Hsw]|(pi & Hin & Ho)].
-    + left. split; [apply Hss; exact Hin|]. intros d0 Hd0. rewrite Hdel in Hd0.
-      destruct Hd0 as [<-|[]]. exact Hsw.
+    + left. apply Hss in Hin. split; [exact Hin|]. split.
+      * intros d0 Hd0. rewrite Hdel in Hd0. destruct Hd0 as [<-|[]]. exact Hsw.
+      * intros Hk. apply (H4 q Hk). change q with (fst (q, o)). apply in_map. exact Hin.
     + right. exists pi. destruct (Hin_r q pi Hin) as [_ Hs]. auto.
 Qed.
 
@@ -769,8 +833,10 @@ Print Assumptions generate_reports_partial.
 Print Assumptions generate_reports_sound.
 Print Assumptions generate_reports_counterexample.
 Print Assumptions move_reports.
+Print Assumptions move_reports_gen.
 Print Assumptions book_apply_procs.
 Print Assumptions book_apply_nodup.
+Print Assumptions book_apply_procs_append.
 Print Assumptions consistent_delete.
 Print Assumptions consistent_generate.
 Print Assumptions consistent_move.
